@@ -33,6 +33,11 @@ struct Inner {
 }
 #[derive(Clone)]
 struct Mock(Arc<Inner>);
+impl std::fmt::Debug for Mock {
+    fn fmt(&self, f: &mut std::fmt::Formatter<'_>) -> std::fmt::Result {
+        write!(f, "Mock")
+    }
+}
 
 impl Nurse<()> for Mock {
     fn nurse_obj(&self, fut: FutureObj<'static, ()>) -> Result<(), NurseErr> {
